@@ -58,6 +58,11 @@ def reservation_scope(namespace, binding):
     namespaces = {namespace}
 
     for node in binding.references:
+        if isinstance(node, ast.Name) and getattr(node, 'namedexpr', None) is not None:
+            # An assignment expression target is bound outside of any comprehension it is in,
+            # but the name can't be reused for the iteration variables of those comprehensions
+            node = node.namedexpr
+
         while node is not namespace:
             namespaces.add(node.namespace)
             node = node.namespace
